@@ -186,7 +186,8 @@ func (oa *originAnalysis) of1(v ssa.Value) origin {
 			// append may reuse the first argument's backing array; appended *elements* keep their own origin
 			o := oa.of(x.Call.Args[0])
 			if len(x.Call.Args) > 1 {
-				if hasRefs(x.Call.Args[1].Type().Underlying().(*types.Slice).Elem()) {
+				// append([]byte, string...) has a string as its second operand: no references in it
+				if sl, isSlice := x.Call.Args[1].Type().Underlying().(*types.Slice); isSlice && hasRefs(sl.Elem()) {
 					o |= oa.elemOrigin(x.Call.Args[1])
 				}
 			}
